@@ -727,6 +727,30 @@ bool Interp::doEdgeOps(const Step& s)
         if (n > 65535) R.labels.add("count_over_65535");
         return true;
     }
+    if (op == "hold") {         // hold src n pile : n copies of an edge, kept until `unhold pile`
+        if (s.size() < 4) { skip("hold-short"); return true; }
+        int src = toInt(s[1]); long n = atol(s[2].c_str()); int pile = toInt(s[3]);
+        if (!liveSlot(src) || n < 1 || n > 200000 || pile < 0 || pile > 7) { skip("hold-operands"); return true; }
+        if (piles.size() <= size_t(pile)) piles.resize(size_t(pile) + 1);
+        if (W.slots[size_t(src)].e->getNode() <= 0) { skip("hold-terminal"); return true; }
+        for (long i = 0; i < n; i++) piles[size_t(pile)].push_back(new dd_edge(*W.slots[size_t(src)].e));
+        pileForest.resize(piles.size(), -1);
+        pileForest[size_t(pile)] = W.slots[size_t(src)].f;
+        if (n > 65535) R.labels.add("held_over_65535");
+        int big = 0;
+        for (auto& p : piles) if (p.size() > 65535) big++;
+        if (big >= 2) R.labels.add("two_counters_over_16bit");
+        return true;
+    }
+    if (op == "unhold") {
+        if (s.size() < 2) { skip("unhold-short"); return true; }
+        int pile = toInt(s[1]);
+        if (pile < 0 || size_t(pile) >= piles.size() || piles[size_t(pile)].empty()) { skip("unhold-empty"); return true; }
+        for (auto p : piles[size_t(pile)]) delete p;
+        piles[size_t(pile)].clear();
+        R.labels.add("pile_released");
+        return true;
+    }
     if (op == "clearct") {
         if (s.size() < 2) { skip("clearct-short"); return true; }
         int f = toInt(s[1]);
@@ -768,7 +792,7 @@ bool Interp::step(const Step& s, int index)
         else if (op == "scalar") ok = doScalar(s);
         else if (op == "strict") { strictErrors = true; }
         else if (op == "dup" || op == "assign" || op == "release" || op == "temps" || op == "clearct"
-                 || op == "stales" || op == "audit") ok = doEdgeOps(s);
+                 || op == "stales" || op == "audit" || op == "hold" || op == "unhold") ok = doEdgeOps(s);
         else {
             bool handled = false;
             ok = doExtra(s, handled);
@@ -828,6 +852,7 @@ void Interp::run()
         if (mx > 16) R.labels.add("level_size_over_16");
         R.labels.add("K" + std::to_string(D.K()));
     }
+    for (auto& p : piles) { for (auto e : p) delete e; p.clear(); }
     W.stop();
 }
 
